@@ -84,6 +84,14 @@ class BuildError(Exception):
     pass
 
 
+class HangError(Exception):
+    """a harness call did not return within the limit: .case is the first unanswered case, .limit the seconds waited"""
+    def __init__(self, case, limit):
+        Exception.__init__(self, "hang")
+        self.case = case
+        self.limit = limit
+
+
 _hang_seen = []
 
 
@@ -123,6 +131,8 @@ def run_harness(cases, profile="release", features=(), env_extra=None, timeout=3
     if rc_ != 0 or hung or any(o is None for o in outs):
         # the process died (abort / stack overflow / OOM) or was killed after the time limit: name the first unanswered case
         first = next((i for i, o in enumerate(outs) if o is None), None)
+        if hung and first is not None and not os.environ.get("VERIF_KEEP_GOING"):
+            raise HangError({k: v for k, v in cases[first].items() if k in ("ctx", "op", "args", "tag")}, limit)
         for i, o in enumerate(outs):
             if o is None:
                 outs[i] = ("hang" if hung else "abort") if i == first else "not_run"
